@@ -55,6 +55,12 @@ Definition spec_fields_ok (p : QP) : bool :=
 Definition gt_case := (QP * QA)%type.
 Definition gt_agree (c : gt_case) : bool := aff_eqb (gettransform (fst c)) (snd c).
 
+Definition aff_within (tol : Qc) (s t : QA) : bool :=
+  within tol (aa s) (aa t) && within tol (ab s) (ab t) && within tol (ac s) (ac t) &&
+  within tol (ad s) (ad t) && within tol (ae s) (ae t) && within tol (af s) (af t).
+(* the rotate / skew classes compute with floating-point trigonometry: the same affine to within 1e-6 *)
+Definition gt_close (c : gt_case) : bool := aff_within (q 1 1000000) (gettransform (fst c)) (snd c).
+
 (* ---- transformed ---- *)
 Definition tr_case := (QA * QP * QP)%type.
 Definition tr_agree (c : tr_case) : bool :=
@@ -115,9 +121,6 @@ Definition du_agree (c : du_case) : bool :=
   let '(hx, hy, t, out) := c in opt_eqb pair_aff_eqb (decompose_uniform_transform K hx hy t) out.
 Definition tolD : Qc := q 1 1000.
 Definition round9_tol (m : Qc) : Qc := q 1 1000000 + q 1 1000000000 * m.
-Definition aff_within (tol : Qc) (s t : QA) : bool :=
-  within tol (aa s) (aa t) && within tol (ab s) (ab t) && within tol (ac s) (ac t) &&
-  within tol (ad s) (ad t) && within tol (ae s) (ae t) && within tol (af s) (af t).
 Definition du_prop (c : du_case) : bool :=
   let '(hx, hy, t, out) := c in
   match out with
